@@ -61,9 +61,9 @@ def _named(ps):
     return [p[0] for p in ps if p[1] in ('po', 'pk', 'ko')]
 
 
-def mask_names_space(ps, foreign='z', include_po=False):
+def mask_names_space(ps, foreign='z', include_po=False, include_stars=False):
     """every permutation of every duplicate-free subset of (maskable names + a foreign name)"""
-    cand = [p[0] for p in ps if p[1] in ('pk', 'ko') or (include_po and p[1] == 'po')] + [foreign]
+    cand = [p[0] for p in ps if p[1] in ('pk', 'ko') or (include_po and p[1] == 'po') or (include_stars and p[1] in ('vp', 'vk'))] + [foreign]
     for r in range(len(cand) + 1):
         for sub in itertools.permutations(cand, r):
             yield sub
@@ -95,7 +95,7 @@ def maskflags(tier, seed, ci, nc, count=40000):
         ps = rng.choice(univ)
         npos = sum(1 for p in ps if p[1] in ('po', 'pk'))
         n = rng.randint(0, npos + 2)
-        cand = _named(ps) + ['z']
+        cand = _named(ps) + ['z'] + ([p[0] for p in ps if p[1] in ('vp', 'vk')] if rng.random() < 0.3 else [])
         r = rng.randint(0, min(3, len(cand)))
         nm = tuple(rng.choice(cand) for _ in range(r)) if rng.random() < 0.2 else tuple(rng.sample(cand, r))
         yield ('mask', n, nm, rng.choice(ALLFLAGS), D(ps, fn=1))
@@ -109,7 +109,9 @@ def maskflags_exh(tier, seed, ci, nc):
             npos = sum(1 for p in ps if p[1] in ('po', 'pk'))
             d = D(ps, fn=1)
             for n in range(npos + 3):
-                for nm in mask_names_space(ps, include_po=True):
+                for nm in mask_names_space(ps, include_po=True, include_stars=True):
+                    if len(nm) > 3:
+                        continue
                     for fl in ALLFLAGS:
                         yield ('mask', n, nm, fl, d)
     return _slice(gen(), ci, nc)
